@@ -24,6 +24,9 @@ pub enum Op {
     Lower,
     /// isolation: withdraw all rules (an empty load) and load the original rules again, same ids
     Restore,
+    /// hotspot: re-load the concurrency rule with its threshold raised by one more while entries
+    /// are in flight (the per-value overrides stay): what is in flight stays counted
+    Raise,
 }
 
 const RES: &str = "c05-res";
@@ -43,13 +46,14 @@ pub struct C05 {
     freed_reuse: u64,
     just_exited: bool,
     lowered: u32,
+    raised: u64,
     over_cap_after_lowering: u64,
     restored: u32,
 }
 
 impl C05 {
     pub fn new(cfg: &Cfg) -> Self {
-        C05 { cfg: cfg.clone(), open: vec![], admits: 0, rejects: 0, ambiguous: 0, not_applied: 0, freed_reuse: 0, just_exited: false, lowered: 0, over_cap_after_lowering: 0, restored: 0 }
+        C05 { cfg: cfg.clone(), open: vec![], admits: 0, rejects: 0, ambiguous: 0, not_applied: 0, freed_reuse: 0, just_exited: false, lowered: 0, raised: 0, over_cap_after_lowering: 0, restored: 0 }
     }
     fn inflight(&self) -> u32 {
         self.open.len() as u32
@@ -113,24 +117,12 @@ impl Subject for C05 {
         self.freed_reuse = 0;
         self.just_exited = false;
         self.lowered = 0;
+        self.raised = 0;
         self.over_cap_after_lowering = 0;
         self.restored = 0;
         match &self.cfg {
             Cfg::Isolation { .. } => self.load_isolation(),
-            Cfg::Hotspot { threshold, index, keyed, overrides, capacity } => {
-                hotspot::load_rules(vec![Arc::new(hotspot::Rule {
-                    id: "h0".into(),
-                    resource: RES.into(),
-                    metric_type: hotspot::MetricType::Concurrency,
-                    control_strategy: hotspot::ControlStrategy::Reject,
-                    param_index: *index,
-                    param_key: if *keyed { "k".into() } else { String::new() },
-                    threshold: *threshold,
-                    params_max_capacity: *capacity,
-                    specific_items: overrides.iter().cloned().collect(),
-                    ..Default::default()
-                })]);
-            }
+            Cfg::Hotspot { .. } => self.load_hotspot(),
         }
     }
     fn enabled(&self) -> Vec<Op> {
@@ -153,6 +145,11 @@ impl Subject for C05 {
         for i in 0..self.open.len().min(4) {
             v.push(Op::Exit(i));
         }
+        if let Cfg::Hotspot { .. } = &self.cfg {
+            if !self.open.is_empty() && self.raised < 2 {
+                v.push(Op::Raise);
+            }
+        }
         if let Cfg::Isolation { thresholds } = &self.cfg {
             if !self.open.is_empty() && self.lowered < 2 && thresholds.iter().any(|t| self.eff(*t) > 1) {
                 v.push(Op::Lower);
@@ -173,6 +170,10 @@ impl Subject for C05 {
             Op::Lower => {
                 self.lowered += 1;
                 self.load_isolation();
+            }
+            Op::Raise => {
+                self.raised += 1;
+                self.load_hotspot();
             }
             Op::Restore => {
                 self.restored += 1;
@@ -233,7 +234,7 @@ impl Subject for C05 {
                             }
                         }
                         Some(v) => {
-                            let t = overrides.iter().find(|(k, _)| *k == v).map(|(_, t)| *t).unwrap_or(*threshold);
+                            let t = overrides.iter().find(|(k, _)| *k == v).map(|(_, t)| *t).unwrap_or(*threshold + self.raised);
                             let cur = self.inflight_of(&v);
                             match r {
                                 Built::Ok(e) => {
@@ -283,7 +284,7 @@ impl Subject for C05 {
                 }
             }
             for (v, c) in per {
-                let t = overrides.iter().find(|(k, _)| *k == v).map(|(_, t)| *t).unwrap_or(*threshold);
+                let t = overrides.iter().find(|(k, _)| *k == v).map(|(_, t)| *t).unwrap_or(*threshold + self.raised);
                 if c > t {
                     return Err(format!("cap-exceeded: value {:?}: {} in flight, threshold {}", v, c, t));
                 }
@@ -302,6 +303,24 @@ impl Subject for C05 {
     }
 }
 
+impl C05 {
+    fn load_hotspot(&self) {
+        if let Cfg::Hotspot { threshold, index, keyed, overrides, capacity } = &self.cfg {
+            hotspot::load_rules(vec![Arc::new(hotspot::Rule {
+                id: "h0".into(),
+                resource: RES.into(),
+                metric_type: hotspot::MetricType::Concurrency,
+                control_strategy: hotspot::ControlStrategy::Reject,
+                param_index: *index,
+                param_key: if *keyed { "k".into() } else { String::new() },
+                threshold: *threshold + self.raised,
+                params_max_capacity: *capacity,
+                specific_items: overrides.iter().cloned().collect(),
+                ..Default::default()
+            })]);
+        }
+    }
+}
 pub fn configs(thorough: bool) -> Vec<Cfg> {
     let mut v = vec![];
     for a in 1..=4u32 {
